@@ -6,7 +6,7 @@ from __future__ import annotations
 from checks.sctp_common import base_problems, drain_verdict, session_classes
 from vlib.runner import Check, Family, Outcome
 from vlib.sctpsim import Session
-from vlib.strategies import session_case
+from vlib.strategies import rto_window_case, session_case
 
 
 def run_session(case: dict) -> Outcome:
@@ -55,8 +55,9 @@ CHECK = Check(
     ),
     families=[
         Family("sessions", run_session,
-               lambda tier: session_case(tier, reliable_only=True, max_sends=30 if tier == "quick" else 60, loss_bias=True, burst_bias=True),
-               quick=3000, thorough=100000, min_shard=20),
+               lambda tier: session_case(tier, reliable_only=True, max_sends=30 if tier == "quick" else 60, loss_bias=True, burst_bias=True, warmup=True),
+               quick=6000, thorough=100000, min_shard=20),
+        Family("rto-window", run_session, rto_window_case, quick=15000, thorough=100000, min_shard=20),
     ],
     floor=200,
     assumptions=["liveness is decided as bounded liveness under the virtual clock (horizon 900 s after healing)",
